@@ -69,8 +69,10 @@ def parse_gopher_menu(body):
     return out
 
 
-def validate(proto, resp):
+def validate(proto, resp, head=False, check_length=True):
     """Syntactic validity of one complete response for the protocol that produced it.
+    head: the reply answers a HEAD request (length-bearing headers then describe a body that is not sent).
+    check_length: compare Content-Length (HTTP family) with the body actually received.
     Returns a dict(kind=..., status=..., body=...) or raises Malformed.
     kind in {error, success}; for plain Gopher a non-error reply is an arbitrary document or menu."""
     if proto in ("gopher", "sgopher"):
@@ -100,6 +102,16 @@ def validate(proto, resp):
             raise Malformed("no Content-Type header")
         if len(set(names)) != len(names):
             raise Malformed("duplicate header")
+        # a header that announces the length of the body must tell the truth (RFC 1945 10.4): a client reads
+        # exactly that many bytes
+        for hname, hval in headers:
+            if hname.lower() == "content-length":
+                if not re.fullmatch(rb"\d+", hval.strip()):
+                    raise Malformed("Content-Length is not a number: %r" % hval)
+                if check_length and not head and int(hval) != len(body):
+                    raise Malformed("Content-Length announces %d bytes, %d bytes follow the header block" % (int(hval), len(body)))
+                if check_length and head and body != b"":
+                    raise Malformed("a reply to HEAD carries a body")
         kind = "success" if code == 200 else "error"
         if b"Not Found" in resp.split(b"\r\n", 1)[0]:
             kind = "error"      # WAP's not-found deck is sent with "200 Not Found"
